@@ -158,6 +158,8 @@ def judge(chk, pid, md, findings_d11):
                               dict(replay, spec_edges={k: v for k, v in se.items()}, real_edges={k: v for k, v in re_.items()}))
         if not obs["model_unchanged"]:
             chk.violation("Build modified the model it was given", replay)
+        if obs.get("api_structure_differs"):
+            chk.violation("the same model written API-style (metadata only for directly assignable relations) gives a different graph structure", replay)
         return
 
     outcomes = obs["outcomes"]
